@@ -17,6 +17,7 @@ import asyncio
 import contextlib
 import itertools
 import logging
+import os
 import socket
 import sys
 import threading
@@ -287,6 +288,19 @@ class _AsyncWorld:
         for _ in range(SETTLE_ITERATIONS):
             await asyncio.sleep(0)
 
+    async def _until(self, cond):
+        """Let the loop run until an expected event of the real sockets has been seen by the server (loopback delivery is
+        normally synchronous with the sender, but this does not rely on it); bounded generously, never by a short timeout."""
+        deadline = time.monotonic() + WATCHDOG
+        spins = 0
+        while not cond():
+            await asyncio.sleep(0)
+            spins += 1
+            if spins > 200:
+                if time.monotonic() > deadline:
+                    raise HarnessUnsettled("an expected socket event never reached the server")
+                time.sleep(0.0005)
+
     async def _case(self, inp):
         from easynetwork.protocol import DatagramProtocol, StreamProtocol
         from easynetwork.serializers.line import StringLineSerializer
@@ -322,9 +336,11 @@ class _AsyncWorld:
             async def handle(self, client):
                 req = yield
                 if req == "busy":
+                    busy_seen.append(1)
                     await never.wait()
                 await client.send_packet("re:" + req)
 
+        busy_seen = []
         logger = logging.getLogger("c18")
         if kind == 0:
             from easynetwork.servers.async_tcp import AsyncTCPNetworkServer
@@ -355,7 +371,9 @@ class _AsyncWorld:
                 elif lab == L_CONNECT and kind == 0:
                     if srv.is_serving():
                         a = srv.get_addresses()[0]
+                        n_before = len(connected)
                         clients.append(await asyncio.open_connection(a.host, a.port))
+                        await self._until(lambda: len(connected) > n_before)     # explicit condition: on_connection ran
                 elif lab == L_DISCONNECT and kind == 0:
                     if clients:
                         r, w = clients.pop()
@@ -366,6 +384,7 @@ class _AsyncWorld:
                         s = socket.socket(socket.AF_INET, socket.SOCK_DGRAM)
                         s.setblocking(False)
                         s.sendto(b"busy", (a.host, a.port))
+                        await self._until(lambda: busy_seen)                     # explicit condition: the handler has it
                         await self._settle()
                         s.sendto(b"queued", (a.host, a.port))
                         clients.append((None, s))
@@ -437,14 +456,21 @@ def run_impl(inp):
         warnings.simplefilter("ignore")
         if inp[0] in (0, 1):
             return _run_async(inp)
-        return _run_standalone(inp)
+        try:
+            return _run_standalone(inp)
+        except HarnessUnsettled:
+            return _run_standalone(inp)      # retried once; a second failure is reported as a harness problem
 
 
 # ----------------------------------------------------------------------------------------------------------------
 # standalone (threaded) servers: one real thread per call, quiescence by sampling, a watchdog on everything
 # ----------------------------------------------------------------------------------------------------------------
-WATCHDOG = 8.0          # real seconds: longest wait for quiescence / for a thread to end
-SAMPLE = 0.0015
+WATCHDOG = 90.0         # real seconds: upper bound for the system to come to rest (only reached on livelock / overload)
+GATE_WAIT = 3600.0      # harness gates are opened by the harness itself; this bound is never meant to expire
+
+
+class HarnessUnsettled(RuntimeError):
+    """the threads of a case never came to rest within WATCHDOG: a harness problem, not an observation"""
 
 
 class _Call:
@@ -466,55 +492,78 @@ class _Call:
         return _status(self.exc, self.done.is_set())
 
 
-def _os_state(t):
-    """scheduler state of a thread from /proc: 'S' = blocked (lock, event, select); 'R' = running or waiting for a CPU"""
+def _kernel_view(me):
+    """(tid -> (state, voluntary switches, involuntary switches)) for every OTHER task of this process.
+
+    Load independent: a thread that is parked on a lock / event / future / select is in state S and its context-switch
+    counters do not move; a thread that is runnable (even if it gets no CPU for a long time) is in state R; a thread
+    that was woken and went back to sleep (e.g. it found the GIL taken) has its voluntary counter incremented.  Every
+    wake-up in this driver is issued by another thread of the process or by loopback I/O performed by one, i.e. it is
+    synchronous with the waker; so "all S, no counter moved between two looks" means nothing is in flight."""
+    view = {}
     try:
-        with open(f"/proc/self/task/{t.native_id}/stat") as fh:
-            return fh.read().rsplit(")", 1)[1].split()[0]
-    except (OSError, IndexError, TypeError):
-        return "?"
-
-
-def _snapshot(threads):
-    """None if some thread is runnable; else the (frame, instruction) position of every live thread"""
-    frames = sys._current_frames()
-    snap = []
-    for t in threads:
-        if not t.is_alive():
-            snap.append(None)
+        tids = os.listdir("/proc/self/task")
+    except OSError:
+        return None
+    for tid in tids:
+        if int(tid) == me:
             continue
-        if _os_state(t) not in ("S", "?"):
-            return None
-        f = frames.get(t.ident)
-        snap.append((id(f), f.f_lasti) if f is not None else None)
-    return tuple(snap)
+        try:
+            with open(f"/proc/self/task/{tid}/status") as fh:
+                txt = fh.read()
+        except OSError:
+            continue            # the task has just ended
+        state = vol = nonvol = None
+        for line in txt.splitlines():
+            if line.startswith("State:"):
+                state = line.split()[1]
+            elif line.startswith("voluntary_ctxt_switches:"):
+                vol = line.split()[1]
+            elif line.startswith("nonvoluntary_ctxt_switches:"):
+                nonvol = line.split()[1]
+        view[tid] = (state, vol, nonvol)
+    return view
 
 
-def _quiesce(threads):
-    """Wait until no thread of the case makes progress any more (all ended, or blocked in a lock / event / select).
-    Returns False if the watchdog expired first."""
+def _quiesce(_threads=None):
+    """Wait until the whole process (except the calling harness thread) is at rest: every task parked in the kernel and
+    nothing having moved between consecutive looks, and no Python frame having advanced.  The criterion does not depend
+    on how fast threads get the CPU; the pauses between looks only let them run.  Raises HarnessUnsettled if that never
+    happens within WATCHDOG (livelock or a machine too loaded to make any progress)."""
+    me = threading.get_native_id()
+    my_ident = threading.get_ident()
     deadline = time.monotonic() + WATCHDOG
-    same, last = 0, None
+    same, last, pause = 0, None, 0.001
     while time.monotonic() < deadline:
-        time.sleep(SAMPLE)
-        snap = _snapshot(threads)
-        if snap is None:
-            same, last = 0, None
-        elif snap == last:
+        time.sleep(pause)                       # releases the GIL: lets every runnable thread go on
+        pause = min(pause * 1.5, 0.02)
+        view = _kernel_view(me)
+        if view is None or any(v[0] != "S" for v in view.values()):
+            same, last, pause = 0, None, 0.001
+            continue
+        frames = tuple(sorted((ident, id(f), f.f_lasti) for ident, f in sys._current_frames().items() if ident != my_ident))
+        snap = (tuple(sorted(view.items())), frames)
+        if snap == last:
             same += 1
-            if same >= 4:
+            if same >= 2:
                 return True
         else:
             same, last = 0, snap
-    return False
+    raise HarnessUnsettled("the threads of the case did not come to rest")
+
+
+def _query(fn, blocked):
+    """Run a query of the server (is_serving / get_addresses) in its own thread and let everything come to rest:
+    its result, or `blocked` if the query itself is parked (e.g. on the bootstrap lock) -- no timeout involved."""
+    box = []
+    t = threading.Thread(target=lambda: box.append(fn()), name="c18-query", daemon=True)
+    t.start()
+    _quiesce()
+    return box[0] if box else blocked
 
 
 def _with_watchdog(fn, default):
-    box = []
-    t = threading.Thread(target=lambda: box.append(fn()), daemon=True)
-    t.start()
-    t.join(WATCHDOG)
-    return box[0] if box else default
+    return _query(fn, default)
 
 
 def _loop_threads(before):
@@ -578,7 +627,7 @@ def _run_standalone(inp):
         class GatedEvent(threading.Event):
             def wait(self, timeout=None):
                 if threading.current_thread().name.startswith("c18-pshutdown"):
-                    resume.wait(WATCHDOG * 4)
+                    resume.wait(GATE_WAIT)
                 return super().wait(timeout)
 
         class _Shim:
@@ -610,7 +659,7 @@ def _run_standalone(inp):
                 if t.name.startswith("c18-serve"):
                     self._count[t.name] = self._count.get(t.name, 0) + 1
                     if self._count[t.name] == 2:
-                        teardown_gate.wait(WATCHDOG * 4)
+                        teardown_gate.wait(GATE_WAIT)
                 return self._lock.acquire(*a, **kw)
 
             def release(self):
@@ -651,7 +700,7 @@ def _run_standalone(inp):
 
         def gated_factory(backend):
             in_window.set()
-            window_gate.wait(WATCHDOG * 4)
+            window_gate.wait(GATE_WAIT)
             window_gate.clear()
             in_window.clear()
             return orig_factory(backend)
@@ -659,7 +708,6 @@ def _run_standalone(inp):
         setattr(srv, attr, gated_factory)
     before = set(threading.enumerate())
     calls, clients, obs = [], [], []
-    stuck = False
     addr = None
     try:
         for n, lab in enumerate(labels):
@@ -683,7 +731,7 @@ def _run_standalone(inp):
                     if a:
                         s = socket.socket(socket.AF_INET, socket.SOCK_DGRAM)
                         s.sendto(b"busy", (a[0].host, a[0].port))
-                        _quiesce(_loop_threads(before))
+                        _quiesce()
                         s.sendto(b"queued", (a[0].host, a[0].port))
                         clients.append(s)
             elif lab == L_REL_FACTORY:
@@ -701,22 +749,25 @@ def _run_standalone(inp):
                 calls.append(_Call(srv.shutdown, f"c18-pshutdown-{n}"))
             elif lab == L_RESUME:
                 resume.set()
-            if not _quiesce(_loop_threads(before)):
-                stuck = True
+            _quiesce()
             if lab == L_REL_CLIENT:
                 teardown_gate.clear()      # one-shot: a release with nobody at the gate is not remembered
             if in_window.is_set():
                 serving = listening = 0        # is_serving() would block on the bootstrap lock: that is the window
             else:
-                serving = _with_watchdog(lambda: int(srv.is_serving()), 2)
-                listening = _with_watchdog(lambda: int(len(srv.get_addresses()) > 0), 2)
-                if listening == 1:
-                    a = _with_watchdog(srv.get_addresses, ())
-                    if a:
-                        addr = (a[0].host, a[0].port)
-            # the queries above run in the loop thread: let it come to rest again
-            _quiesce(_loop_threads(before))
-            obs.append([[c.status() if not stuck else 8 for c in calls], serving, listening, _port_bound(kind, addr)])
+                def both():
+                    sv = int(srv.is_serving())
+                    ad = srv.get_addresses()
+                    return sv, ad
+                res = _query(both, None)
+                if res is None:
+                    serving = listening = 2    # the query itself is parked
+                else:
+                    serving, listening = res[0], int(len(res[1]) > 0)
+                    if res[1]:
+                        addr = (res[1][0].host, res[1][0].port)
+            # the queries above run in the loop thread: everything is at rest again when _query returns
+            obs.append([[c.status() for c in calls], serving, listening, _port_bound(kind, addr)])
     finally:
         never.set()
         resume.set()
@@ -730,17 +781,20 @@ def _run_standalone(inp):
         for c in clients:
             with contextlib.suppress(Exception):
                 c.close()
-        # tear down whatever is left, under the watchdog
-        t = threading.Thread(target=lambda: contextlib.suppress(BaseException).__enter__() or srv.shutdown(timeout=WATCHDOG), daemon=True)
-        t.start()
-        t.join(WATCHDOG + 1)
-        t = threading.Thread(target=srv.server_close, daemon=True)
-        t.start()
-        t.join(WATCHDOG)
-        for c in calls:
-            teardown_gate.set()
-            release_service_init()
-            c.thread.join(WATCHDOG)
+        # tear down whatever is left: every gate is open; shutdown and server_close run in their own threads and the
+        # process is left to come to rest (threads parked for good by a real deadlock stay behind as daemons)
+        def _quietly(fn):
+            with contextlib.suppress(BaseException):
+                fn()
+
+        for fn in (srv.shutdown, srv.server_close):
+            threading.Thread(target=_quietly, args=(fn,), name="c18-cleanup", daemon=True).start()
+            with contextlib.suppress(HarnessUnsettled):
+                _quiesce()
+        teardown_gate.set()
+        release_service_init()
+        with contextlib.suppress(HarnessUnsettled):
+            _quiesce()
         threading.excepthook = old_excepthook
     return obs
 
@@ -812,7 +866,11 @@ def cases(tier, rng, escalate):
         yield _mk(3, (0, 0, 0), seq, ["clients"])
     # start-up window (close lock + bootstrap lock held until the portal exists): one call issued inside the window
     for kind in (2, 3):
-        for inside in (L_SERVE, L_SHUTDOWN, L_CLOSE, None):
+        # (no server_close inside the window: once released it races with the asynchronous set-up of the new run --
+        #  ServerClosedError for serve_forever, BusyResourceError for the close, or a clean close after "up" depending on
+        #  thread timing -- which cannot be replayed deterministically; serve_forever / shutdown inside the window have
+        #  the same outcome wherever they land)
+        for inside in (L_SERVE, L_SHUTDOWN, None):
             for after in ([], [L_SHUTDOWN], [L_CLOSE], [L_SERVE], [L_CLOSE, L_SERVE, L_REL_FACTORY], [L_SHUTDOWN, L_SERVE, L_REL_FACTORY, L_SHUTDOWN]):
                 for pre in ([], [L_CLOSE], [L_SHUTDOWN]):
                     seq = pre + [L_SERVE] + ([inside] if inside is not None else []) + [L_REL_FACTORY] + after
